@@ -239,16 +239,24 @@ def _set_level_registration(cx, f, loop, ins, container, name_var, new_var):
     exits = [n for n in ast.walk(loop) if isinstance(n, (ast.Break, ast.Continue, ast.Return))]
     cx.need(not exits and len(tests) >= 1, "R19a", loop, "registry pass with early exits / without a condition: form not analysed")
     disj, extra = [], []
+    from sa.guards import canon_test, split as _split
+
+    def _named(e):
+        """a test kept in a local (`is_ascendant = a or b`) is read as its definition"""
+        if isinstance(e, ast.Name):
+            ds_ = [v_ for _s, v_ in assignments(f, e.id)]
+            if len(ds_) == 1 and ds_[0] is not None and isinstance(ds_[0], (ast.BoolOp, ast.Compare, ast.Call, ast.UnaryOp)):
+                return ds_[0]
+        return e
     for t in tests:
-        if isinstance(t, ast.BoolOp) and isinstance(t.op, ast.Or):
-            disj.append(list(t.values))
-        else:
-            extra.append(t)
+        for e_, pol_ in _split(_named(t), True):
+            e_ = _named(e_)
+            if pol_ and isinstance(e_, ast.BoolOp) and isinstance(e_.op, ast.Or):
+                disj.append(list(e_.values))
+            else:
+                extra.append(e_ if pol_ else ast.UnaryOp(op=ast.Not(), operand=e_))
     cx.need(len(disj) == 1, "R19a", loop, "the receivers' condition is not one disjunction `parent itself or ancestor of a parent`")
     fresh = ("in", name_var, f"{evar}.{container}", False)
-    from sa.guards import canon_test
-    for t in extra:
-        cx.need(canon_test(t) == {fresh}, "R19a", t, f"additional condition on the receivers `{norm(t)[:60]}` not recognised")
 
     def parents_set(e):
         """'set' when e is the set of declared parent names, 'text' when it is the raw declaration text, None otherwise"""
@@ -271,7 +279,16 @@ def _set_level_registration(cx, f, loop, ins, container, name_var, new_var):
                 return "text"
             if isinstance(src, ast.Subscript) and isinstance(src.value, ast.Call) and call_name(src.value) in ("partition", "rpartition", "split", "rsplit"):
                 return "text"
+            if isinstance(src, ast.Constant) and isinstance(src.value, str):
+                return "text"
+            if isinstance(src, ast.Name):       # unpacked from a local that holds the pieces of a split
+                for _s2, v2 in assignments(f, src.id):
+                    if isinstance(v2, ast.Call) and call_name(v2) in ("partition", "rpartition", "split", "rsplit"):
+                        return "text"
         return None
+    for t in extra:
+        ok_extra = canon_test(t) == {fresh} or (isinstance(t, ast.Name) and parents_set(t) == "set")
+        cx.need(ok_extra, "R19a", t, f"additional condition on the receivers `{norm(t)[:60]}` not recognised")
     kinds = {}
     for d in disj[0]:
         k = None
@@ -281,7 +298,7 @@ def _set_level_registration(cx, f, loop, ins, container, name_var, new_var):
                 k = "direct"
             elif ps == "text":
                 cx.ob("R19a", d, False, f"`{norm(d)}` tests the registered name against the raw declaration text `{norm(d.comparators[0])}`: a substring test - a parser whose name is "
-                      "part of a parent's name receives the new command although it is not its ancestor (options leak to commands that did not ask for them)", stmt="direct registration")
+                      "part of a parent's name receives the new command although it is not its ancestor (options leak to commands that did not ask for them)", stmt="direct registration", semantic=True)
                 k = "direct-text"
         elif isinstance(d, ast.UnaryOp) and isinstance(d.op, ast.Not) and isinstance(d.operand, ast.Call) and call_name(d.operand) == "isdisjoint" and len(d.operand.args) == 1:
             a_, b_ = d.operand.func.value, d.operand.args[0]
@@ -296,12 +313,21 @@ def _set_level_registration(cx, f, loop, ins, container, name_var, new_var):
             g = d.args[0].generators[0]
             if parents_set(g.iter) == "set" and isinstance(g.target, ast.Name) and not g.ifs and canon_test(d.args[0].elt) == {("in", g.target.id, f"{evar}.{container}", True)}:
                 k = "transitive"
+        if k is None and isinstance(d, ast.Compare) and len(d.ops) == 1 and isinstance(d.ops[0], (ast.LtE, ast.Lt)) and parents_set(d.left) == "set" \
+                and norm(d.comparators[0]) in (f"{evar}.{container}", f"{evar}.{container}.keys()", f"set({evar}.{container})"):
+            cx.ob("R19a", d, False, f"`{norm(d)}`: a registered parser counts as an ancestor only if ALL declared parents are among its dependents (subset test); with two parents "
+                  "from different lines of the graph the grand-parents of either line are skipped - their options are not inherited", stmt="transitive registration", semantic=True)
+            k = "transitive-all"
+        if k is None and isinstance(d, ast.Call) and call_name(d) == "issubset" and isinstance(d.func, ast.Attribute) and parents_set(d.func.value) == "set":
+            cx.ob("R19a", d, False, f"`{norm(d)}`: ancestors are required to have ALL declared parents as dependents", stmt="transitive registration", semantic=True)
+            k = "transitive-all"
         if k is None:
             raise AnalysisError("R19a", f"{REL}::_init_multicmd_parser", f"receiver condition `{norm(d)[:70]}` not recognised")
         kinds[k] = d
     if "direct-text" not in kinds:
         cx.ob("R19a", loop, "direct" in kinds, "the new parser is registered in each declared parent" if "direct" in kinds else "the new parser is not registered in its declared parents", stmt="direct registration")
-    cx.ob("R19a", loop, "transitive" in kinds, "the new parser is also registered in all ancestors (parsers that already have a parent as dependent)" if "transitive" in kinds else
+    if "transitive-all" not in kinds:
+      cx.ob("R19a", loop, "transitive" in kinds, "the new parser is also registered in all ancestors (parsers that already have a parent as dependent)" if "transitive" in kinds else
           "no registration in the ancestors of a parent: options of a grand-parent are not inherited", stmt="transitive registration")
 
 
